@@ -630,6 +630,142 @@ def late_binding_closures(ctx, fn: Func) -> List[Tuple[ast.AST, Set[str], ast.AS
     return out
 
 
+# ------------------------------------------------------------------ raw writes, iteration under mutation, shared templates
+def raw_write_unchecked(ctx, fn: Func) -> List[Tuple[ast.Call, ast.Call]]:
+    """(open call, write call) for each `f.write(data)` on a handle opened with buffering=0 whose returned byte count is
+    discarded: a raw write may store fewer bytes than asked WITHOUT raising (full disk, size limit, signal, pipe) - a buffered
+    handle loops until everything is out or raises"""
+    out = []
+    raw: Dict[str, ast.Call] = {}
+    for x in walk_no_defs(fn.node):
+        calls = []
+        if isinstance(x, ast.With):
+            calls = [(it.context_expr, it.optional_vars) for it in x.items]
+        elif isinstance(x, ast.Assign) and len(x.targets) == 1:
+            calls = [(x.value, x.targets[0])]
+        for c, tgt in calls:
+            if isinstance(c, ast.Call) and ((dotted(c.func) or "") in ("open", "io.open") or (isinstance(c.func, ast.Attribute) and c.func.attr == "open")) and isinstance(tgt, ast.Name):
+                b = next((k.value for k in c.keywords if k.arg == "buffering"), None)
+                if b is None and len(c.args) >= 3:
+                    b = c.args[2]
+                if isinstance(b, ast.Constant) and b.value == 0:
+                    raw[tgt.id] = c
+    if not raw:
+        return out
+    pm: Dict[int, ast.AST] = {}
+    for p in ast.walk(fn.node):
+        for ch in ast.iter_child_nodes(p):
+            pm[id(ch)] = p
+    for x in walk_no_defs(fn.node):
+        if isinstance(x, ast.Call) and isinstance(x.func, ast.Attribute) and x.func.attr == "write" and isinstance(x.func.value, ast.Name) and x.func.value.id in raw:
+            if isinstance(pm.get(id(x)), ast.Expr):
+                out.append((raw[x.func.value.id], x))
+    return out
+
+
+_DICT_MUT = {"pop", "popitem", "clear", "update", "setdefault", "add", "discard", "remove", "append", "insert", "extend"}
+
+
+def mutation_during_iteration(ctx, fn: Func) -> List[Tuple[ast.For, ast.AST, str]]:
+    """(loop, construct, container) where the loop walks a container (or its keys()/items()/values() view) directly - no
+    list()/tuple()/sorted() copy - and the body adds to or removes from that same container: RuntimeError for dict / set /
+    OrderedDict ("changed size during iteration"), silently skipped elements for a list"""
+    out = []
+    for lp in walk_no_defs(fn.node):
+        if not isinstance(lp, (ast.For, ast.AsyncFor)):
+            continue
+        it = lp.iter
+        if isinstance(it, ast.Call) and isinstance(it.func, ast.Attribute) and it.func.attr in ("items", "keys", "values") and not it.args:
+            it = it.func.value
+        if not isinstance(it, (ast.Name, ast.Attribute)):
+            continue
+        cont = src(it)
+        for st in lp.body:
+            for x in walk_no_defs(st):
+                hit = None
+                if isinstance(x, ast.Delete):
+                    for t in x.targets:
+                        if isinstance(t, ast.Subscript) and src(t.value) == cont:
+                            hit = x
+                if isinstance(x, ast.Call) and isinstance(x.func, ast.Attribute) and x.func.attr in _DICT_MUT and src(x.func.value) == cont:
+                    hit = x
+                if isinstance(x, ast.Assign):
+                    for t in x.targets:
+                        if isinstance(t, ast.Subscript) and src(t.value) == cont:
+                            # storing under the key being visited does not resize; any other key may
+                            tv = {y.id for y in ast.walk(lp.target) if isinstance(y, ast.Name)}
+                            if not (isinstance(t.slice, ast.Name) and t.slice.id in tv):
+                                hit = x
+                if hit is not None:
+                    # leaving the loop right after the edit is fine (break / return follows in the same block)
+                    out.append((lp, hit, cont))
+    # drop edits that are immediately followed by break / return in their own block
+    keep = []
+    for lp, hit, cont in out:
+        blk = None
+        for b in ast.walk(lp):
+            for f in ("body", "orelse", "finalbody"):
+                seq = getattr(b, f, None)
+                if isinstance(seq, list):
+                    for i, st in enumerate(seq):
+                        if st is hit or (isinstance(st, ast.Expr) and st.value is hit):
+                            blk = (seq, i)
+        if blk and any(isinstance(z, (ast.Break, ast.Return)) for z in blk[0][blk[1] + 1:]):
+            continue
+        keep.append((lp, hit, cont))
+    return keep
+
+
+def _nested_mutable(v: ast.AST) -> bool:
+    if isinstance(v, ast.Dict):
+        return any(_mutable_literal(x) for x in v.values)
+    if isinstance(v, (ast.List, ast.Tuple, ast.Set)):
+        return any(_mutable_literal(x) for x in v.elts)
+    return False
+
+
+def shallow_template_copies(ctx, modname: str) -> List[Tuple[Func, ast.AST, str]]:
+    """(function, construct, template) where a module-level container that itself holds lists / dicts / sets is handed out
+    by a shallow copy (dict(T), T.copy(), {**T}, list(T), copy.copy(T)) or as it is (returned / stored / put in a literal):
+    every receiver shares the inner containers, so what one engine state appends is seen by all later ones in the process"""
+    m = ctx.prog.module(modname)
+    templates: Dict[str, ast.AST] = {}
+    for st in m.tree.body:
+        if isinstance(st, (ast.Assign, ast.AnnAssign)) and st.value is not None and _nested_mutable(st.value):
+            for t in (st.targets if isinstance(st, ast.Assign) else [st.target]):
+                if isinstance(t, ast.Name):
+                    templates[t.id] = st
+    out = []
+    if not templates:
+        return out
+    for fn in m.funcs.values():
+        local = {y.id for y in walk_no_defs(fn.node) if isinstance(y, ast.Name) and isinstance(y.ctx, ast.Store)} | set(fn.params)
+        pm: Dict[int, ast.AST] = {}
+        for p in ast.walk(fn.node):
+            for ch in ast.iter_child_nodes(p):
+                pm[id(ch)] = p
+        for x in walk_no_defs(fn.node):
+            if not (isinstance(x, ast.Name) and x.id in templates and x.id not in local and isinstance(x.ctx, ast.Load)):
+                continue
+            par = pm.get(id(x))
+            how = None
+            if isinstance(par, ast.Call) and x in par.args and (dotted(par.func) or "") in ("dict", "list", "copy.copy", "OrderedDict", "tuple", "set"):
+                how = f"shallow copy `{src(par)[:40]}`"
+            elif isinstance(par, ast.Attribute) and par.attr == "copy" and isinstance(pm.get(id(par)), ast.Call):
+                how = f"shallow copy `{src(pm[id(par)])[:40]}`"
+            elif isinstance(par, ast.Dict) and any(k is None and v is x for k, v in zip(par.keys, par.values)):
+                how = "spread into a new dict (`{**T}`)"
+            elif isinstance(par, (ast.Return,)) or (isinstance(par, ast.Dict) and x in par.values) or (isinstance(par, (ast.List, ast.Tuple)) and x in par.elts):
+                how = "handed out as it is"
+            elif isinstance(par, ast.Assign) and par.value is x:
+                how = "bound / stored as it is"
+            elif isinstance(par, ast.keyword) or (isinstance(par, ast.Call) and x in par.args and (dotted(par.func) or "").split(".")[-1] in ("setdefault", "_set_state_field", "setattr", "update")):
+                how = f"passed on as it is (`{src(pm.get(id(par)) if isinstance(par, ast.keyword) else par)[:40]}`)"
+            if how:
+                out.append((fn, x, f"{x.id}: {how}"))
+    return out
+
+
 # ------------------------------------------------------------------ positive controls (zero-expected rules)
 _PROBES = '''
 import functools as _hz_functools
@@ -690,6 +826,34 @@ def _hz_late(shards, f):
     return [(i, (lambda: f(sh))) for i, sh in enumerate(shards)]
 def _hz_late_ok(shards, f):
     return [(i, (lambda S=sh: f(S))) for i, sh in enumerate(shards)], sorted(shards, key=lambda s: s)
+_HZ_TEMPLATE = {"schema": "v", "merges": [], "count": 0}
+_HZ_FLAT = {"schema": "v", "count": 0}
+def _hz_template():
+    return {"meta": dict(_HZ_TEMPLATE)}
+def _hz_template_ok():
+    import copy
+    return {"meta": copy.deepcopy(_HZ_TEMPLATE), "flat": dict(_HZ_FLAT), "n": _HZ_TEMPLATE["count"]}
+def _hz_prune(d, now):
+    for k, ent in d.items():
+        if ent < now:
+            del d[k]
+def _hz_prune_ok(d, now):
+    for k, ent in list(d.items()):
+        if ent < now:
+            del d[k]
+    for k in d:
+        d[k] = d[k] + 1
+def _hz_rawwrite(path, data):
+    with open(path, "wb", buffering=0) as f:
+        f.write(data)
+def _hz_rawwrite_ok(path, data):
+    with open(path, "wb", buffering=0) as f:
+        view = memoryview(data)
+        while len(view):
+            n = f.write(view)
+            view = view[n:]
+    with open(path, "ab") as g:
+        g.write(data)
 class _HzShared:
     seen = {}
     tags = []
@@ -753,6 +917,15 @@ def controls(ctx, host_module: str, kinds: Sequence[str]) -> str:
         got["default"] = (len(mutable_defaults(pc, g("_hz_default"))), len(mutable_defaults(pc, g("_hz_default_ok"))))
         sh = [o for o in shared_class_state(pc, host_module) if o[0] == "_HzShared"]
         got["classattr"] = (len([o for o in sh if o[1] == "seen"]), len([o for o in sh if o[1] == "tags"]))
+    if "io" in kinds:
+        g = lambda nm: m.funcs[[k for k in m.funcs if k.split(".")[-1] == nm][0]]
+        got["rawwrite"] = (len(raw_write_unchecked(pc, g("_hz_rawwrite"))), len(raw_write_unchecked(pc, g("_hz_rawwrite_ok"))))
+    if "iter" in kinds:
+        g = lambda nm: m.funcs[[k for k in m.funcs if k.split(".")[-1] == nm][0]]
+        got["itermut"] = (len(mutation_during_iteration(pc, g("_hz_prune"))), len(mutation_during_iteration(pc, g("_hz_prune_ok"))))
+    if "template" in kinds:
+        tc = shallow_template_copies(pc, host_module)
+        got["template"] = (len([o for o in tc if o[0].name == "_hz_template"]), len([o for o in tc if o[0].name == "_hz_template_ok"]))
     if "late" in kinds:
         g = lambda nm: m.funcs[[k for k in m.funcs if k.split(".")[-1] == nm][0]]
         got["late"] = (len(late_binding_closures(pc, g("_hz_late"))), len(late_binding_closures(pc, g("_hz_late_ok"))))
